@@ -1185,6 +1185,94 @@ theorem located_deleted_element (cf : File) (q : QName) (rule : String) :
     unfold deletedAnn
     rw [h]
 
+/-- NESTED DELETIONS (the family of harness/cmd/c03/nest.go): the deleted element is named
+    `anc ++ mid ++ [x]` — `anc` the dotted name of a message `m` that SURVIVES in the current file
+    `cf`, `mid` the `k = mid.length ≥ 0` intermediate ancestors that were deleted together with the
+    element (no current message is named `anc ++ mid.take j`, `1 ≤ j ≤ k`).  Then the annotation
+    is located at `m` — the CLOSEST SURVIVING ancestor, however many ancestors went (`k` is
+    arbitrary) and however many more distant ancestors survive too — never at the file and never
+    at a more distant ancestor.  `huniq`: message names are unique in a compiled file (stated on
+    the two components the location reads). -/
+theorem deleted_element_located_at_closest_surviving_ancestor (cf : File) (rule : String)
+    (anc mid : QName) (x : Name) {m : FlatMsg}
+    (hm : m ∈ cf.flatMsgs) (hanc : m.nested = anc) (hne : 1 ≤ anc.length)
+    (huniq : ∀ m' ∈ cf.flatMsgs, m'.nested = anc → m'.path = m.path ∧ m'.mapLoc = m.mapLoc)
+    (hgone : ∀ m' ∈ cf.flatMsgs, ∀ j, 1 ≤ j → j ≤ mid.length → m'.nested ≠ anc ++ mid.take j) :
+    (m.path ∈ cf.locs → deletedAnn rule cf (anc ++ mid ++ [x]) = ⟨rule, cf.path, m.path⟩) ∧
+    (m.path ∉ cf.locs → m.mapLoc = none → deletedAnn rule cf (anc ++ mid ++ [x]) = ⟨rule, cf.path, []⟩) := by
+  have hqlen : (anc ++ mid ++ [x]).length = anc.length + mid.length + 1 := by
+    simp only [List.length_append, List.length_cons, List.length_nil]
+  have htake : (anc ++ mid ++ [x]).take anc.length = anc := by
+    rw [List.append_assoc, List.take_left']
+    rfl
+  rcases located_deleted_element cf (anc ++ mid ++ [x]) rule with
+    ⟨m0, hm0, h1, h2, h3, hmax, hloc, hnoloc⟩ | ⟨hnone, _⟩
+  · -- the enclosing message found is at least as long as `anc` (maximality) …
+    have hge : anc.length ≤ m0.nested.length := by
+      have := hmax m hm (by rw [hanc, hqlen]; omega) (by rw [hanc, htake])
+      rw [hanc] at this
+      exact this
+    -- … and not longer: a longer one would be one of the deleted intermediate ancestors
+    have hle : m0.nested.length ≤ anc.length := by
+      apply Nat.le_of_not_lt
+      intro hlt
+      have hk : m0.nested.length - anc.length ≤ mid.length := by rw [hqlen] at h2; omega
+      have e1 : (anc ++ mid ++ [x]).take m0.nested.length
+          = anc ++ mid.take (m0.nested.length - anc.length) := by
+        rw [List.append_assoc, List.take_append, List.take_of_length_le (Nat.le_of_lt hlt),
+          List.take_append, Nat.sub_eq_zero_of_le hk]
+        simp
+      have hj : m0.nested = anc ++ mid.take (m0.nested.length - anc.length) := h3.trans e1
+      exact hgone m0 hm0 _ (by omega) hk hj
+    have hlen : m0.nested.length = anc.length := Nat.le_antisymm hle hge
+    obtain ⟨hp, hml⟩ := huniq m0 hm0 (by rw [h3, hlen, htake])
+    rw [hp] at hloc hnoloc
+    rw [hml] at hnoloc
+    exact ⟨hloc, hnoloc⟩
+  · exact absurd (by rw [hanc, htake]) (hnone m hm (by rw [hanc]; exact hne) (by rw [hanc, hqlen]; omega))
+
+/-- … and when NO ancestor survives (the whole top-level subtree was deleted, or the element was
+    top-level) the annotation is at the file: `⟨rule, cf.path, []⟩`. -/
+theorem deleted_element_located_at_file_when_no_ancestor_survives (cf : File) (rule : String) (q : QName)
+    (hgone : ∀ m' ∈ cf.flatMsgs, ∀ j, 1 ≤ j → j < q.length → m'.nested ≠ q.take j) :
+    deletedAnn rule cf q = ⟨rule, cf.path, []⟩ := by
+  rcases located_deleted_element cf q rule with ⟨m0, hm0, h1, h2, h3, _, _, _⟩ | ⟨_, h⟩
+  · exact absurd h3 (hgone m0 hm0 _ h1 h2)
+  · exact h
+
+/-- non-vacuity: `A.B.C.D.E` deleted together with `A.B.C` and `A.B.C.D` (k = 2); `A` and `A.B`
+    survive — the annotation is at `A.B` (`[4, 0, 3, 0]`), not at `A`, not at the file. -/
+def nestMsg (n : String) : MsgInfo :=
+  { name := n, fields := [], extensions := [], enums := [], oneofs := [], reservedRanges := [],
+    reservedNames := [], extRanges := [], messageSet := false, noStdAccessor := false, jsonAllow := true,
+    mapEntry := false }
+def nestCur : File :=
+  { path := "a.proto", pkg := ["p"], syn := .proto3, opts := [], locs := [[4, 0], [4, 0, 3, 0]],
+    messages := [.mk (nestMsg "A") [.mk (nestMsg "B") []]], enums := [], services := [], extensions := [] }
+def nestB : FlatMsg := ⟨"a.proto", nestCur.locs, ["p"], ["A", "B"], [4, 0, 3, 0], none, nestMsg "B"⟩
+
+theorem nestCur_short : ∀ m' ∈ nestCur.flatMsgs, m'.nested.length ≤ 2 := by decide
+theorem nestCur_head : ∀ m' ∈ nestCur.flatMsgs, m'.nested.head? = some "A" := by decide
+
+example : deletedAnn "ENUM_NO_DELETE" nestCur (["A", "B"] ++ ["C", "D"] ++ ["E"])
+    = ⟨"ENUM_NO_DELETE", "a.proto", [4, 0, 3, 0]⟩ :=
+  (deleted_element_located_at_closest_surviving_ancestor nestCur "ENUM_NO_DELETE" ["A", "B"] ["C", "D"] "E"
+    (m := nestB) (by decide) rfl (by decide) (by decide)
+    (fun m' hm' j h1 _ heq => by
+      have := nestCur_short m' hm'
+      rw [heq] at this
+      simp at this
+      omega)).1 (by decide)
+
+example : deletedAnn "MESSAGE_NO_DELETE" nestCur ["X", "Y", "Z"] = ⟨"MESSAGE_NO_DELETE", "a.proto", []⟩ :=
+  deleted_element_located_at_file_when_no_ancestor_survives nestCur _ _
+    (fun m' hm' j h1 _ heq => by
+      have := nestCur_head m' hm'
+      rw [heq] at this
+      cases j with
+      | zero => omega
+      | succ n => simp at this)
+
 /-! ### the pre-fix PACKAGE_ENUM_NO_DELETE missed the last enum of a surviving package -/
 
 def cexEnum : Enum :=
